@@ -556,6 +556,25 @@ class ObjRun:
             except Exception:
                 break
         self.ctx.hit("reconditioned_%d+" % (1000 if op["times"] >= 1000 else 100))
+        # the same number of conditionings as a CHAIN (each result conditioned again, as in a loop  post = post(...)): the
+        # last link is still a copy of the original and carries its name
+        from cuqi.density import Density
+        if op.get("chain") and isinstance(o.obj, Density):
+            c_ = o.obj
+            try:
+                want = o.obj.name
+                for i in range(int(op["times"])):
+                    c_ = c_()
+            except core.SimCrash:
+                raise
+            except Exception:
+                return
+            self.ctx.count("decisions")
+            got = _try(lambda: c_.name)
+            if got != ("ok", want) and not self.fault_fired:
+                self.ctx.violate("C11", "name_lost_along_a_chain_of_copies",
+                                 {"engine": "objhist", "obj_class": type(o.obj).__name__, "links": ">=1000" if op["times"] >= 1000 else "<1000"},
+                                 got=str(got)[:80], expected=want)
 
     def op_sampler(self, o, op):
         """run a short sampler on a conditioned copy"""
@@ -1053,7 +1072,8 @@ def gen_case(r, tier):
         elif x < 0.70:
             ops.append({"op": "invalid", "on": on})
         elif x < 0.76:
-            ops.append({"op": "recondition_many", "on": on, "times": r.choice([200, 500, 2000]), "pick": r.randrange(1000)})
+            ops.append({"op": "recondition_many", "on": on, "times": r.choice([200, 500, 2000]), "pick": r.randrange(1000),
+                        "chain": r.random() < 0.5})
         elif x < 0.82:
             ops.append({"op": "sampler", "on": on, "sampler": r.choice(["MH", "LinearRTO", "legacyMH", "HybridGibbs", "Gibbs", "problem", "problem"]),
                         "pick": r.randrange(100), "act": r.choice(["ML", "ML", "MAP", "sample_posterior"] if g in ("kl_nonlin", "heat_pde", "mapped_x")
